@@ -63,7 +63,7 @@ out.append("\nRepaired by a `fix:` commit in /repo (entries suppress nothing; th
 out.append(b)
 mp = os.path.join(ROOT, "seeded", "MATRIX.md")
 out.append("### 0.3 Seeded changes and which checks catch them\n")
-out.append("Fresh sub-agents that were given only a property's text and a scratch worktree wrote realistic property-breaking changes (four rounds; from the second on each sub-agent was told which ideas were already taken and asked for different functions, mechanisms and clauses); each kept change was confirmed by the lead in a scratch worktree (demo passes on the clean tree and fails with the change, build ok, existing tests of the changed packages and their importers pass) and lives under `seeded/<id>/` (patch.diff, demo, NOTES.md, meta.json with the first-trial result, result.json with the last run). `lib/seed_matrix.py` re-runs all of them.\n")
+out.append("Fresh sub-agents that were given only a property's text and a scratch worktree wrote realistic property-breaking changes (six rounds; in rounds two to four each sub-agent was told which ideas were already taken and asked for different functions, mechanisms and clauses, in rounds five and six they were told nothing beyond the property); each kept change was confirmed by the lead in a scratch worktree (demo passes on the clean tree and fails with the change, build ok, existing tests of the changed packages and their importers pass) and lives under `seeded/<id>/` (patch.diff, demo, NOTES.md, meta.json with the first-trial result, result.json with the last run). `lib/seed_matrix.py` re-runs all of them.\n")
 if os.path.exists(mp):
     out.append(open(mp).read().split("\n\n", 2)[-1])
 hp = os.path.join(ROOT, "seeded", "_harmless", "RESULT.txt")
